@@ -141,6 +141,49 @@ template <size_t N, class Tc> static void lin_cell_h()
     for (size_t k = 0; k < N; k++) vf_observe_u64(lo[k]);
 }
 
+// 2b. weights, bit-precise: with lattice value 1 at one corner and 0 at the others the result is that corner's weight,
+//     the product over the axes of a_k or 1 - a_k with a_k = x_k - trunc(x_k) (exact in the coordinate precision),
+//     up to a few roundings (2^-20 absolute: far above any legitimate evaluation order, far below a wrong weight)
+template <size_t N, class Tc, class Ts> static void lin_weight_h()
+{
+    using P = vf::probe<N, 1, size_t, Ts>;
+    using L = backend::linear<P, vector::vector_d<Tc, N>>;
+    field<L> f;
+    typename field<L>::view_t v(f);
+    Tc xs[N];
+    size_t lo[N];
+    typename field<L>::coordinate_t x;
+    // one axis carries an arbitrary coordinate; the others sit at (0 or 5) + (1/4 or 1/2) so that the product of weights
+    // stays a multiplication by a constant (a product of two symbolic weights does not come back from the bit-blaster)
+    size_t axis = N == 1 ? 0 : vf_nondet_range(0, N - 1);
+    for (size_t k = 0; k < N; k++) {
+        if (k == axis) {
+            xs[k] = vf::nondet<Tc>();
+            vf_assume(xs[k] >= Tc(0) && xs[k] < Tc(1048576));
+        } else {
+            xs[k] = Tc(vf_nondet_range(0, 1) * 5) + Tc(0.25) * Tc(vf_nondet_range(1, 2));
+        }
+        x[k] = xs[k];
+        lo[k] = static_cast<size_t>(xs[k]);
+    }
+    size_t hot = vf_nondet_range(0, (size_t(1) << N) - 1);
+    for (size_t n = 0; n < (size_t(1) << N); n++) {
+        size_t c[N];
+        for (size_t k = 0; k < N; k++) c[k] = lo[k] + ((n >> k) & 1);
+        Ts u = vf::uf<Ts, size_t>(0, c, N, 0);
+        vf_assume(u == (n == hot ? Ts(1) : Ts(0)));
+    }
+    auto r = v.at(x);
+    Tc w = Tc(1);
+    for (size_t k = 0; k < N; k++) {
+        Tc a = xs[k] - std::trunc(xs[k]);
+        w *= ((hot >> k) & 1) ? a : (Tc(1) - a);
+    }
+    double err = static_cast<double>(r[0]) - static_cast<double>(w);
+    vf_assert(err <= 0x1p-20 && err >= -0x1p-20, 1);
+    vf_observe_u64(hot);
+}
+
 // 3. lattice exactness: at the corners of a concrete cell the stored value is returned (numerically exact),
 //    after conversion to the coordinate precision when that is the narrower one; all finite stored values
 template <size_t N, size_t M, class Tc, class Ts, size_t I0, size_t I1, size_t I2, size_t I3> static void lin_lattice_h()
